@@ -61,6 +61,52 @@ static orc_uint32 orc_x86_vendor;
 static int orc_x86_microarchitecture;
 
 
+#ifdef ORC_VERIF_HOOKS
+/* Verification hook (compiled only with -DORC_VERIF_HOOKS): when the
+ * environment variable ORC_VERIF_CPUID is set, cpuid and xgetbv answer from
+ * it instead of from the hardware.  Format, nine hex words separated by ':'
+ *   vendor(ecx of leaf 0):max basic leaf:leaf1 ecx:leaf1 edx:leaf7 ebx:
+ *   max extended leaf:leaf 0x80000001 ecx:leaf 0x80000001 edx:xcr0
+ * Leaves above the respective maximum answer zeros. */
+#include <stdio.h>
+#include <stdlib.h>
+static int
+orc_verif_cpuid_words (unsigned int *w)
+{
+  const char *s = getenv ("ORC_VERIF_CPUID");
+  if (s == NULL) return 0;
+  if (sscanf (s, "%x:%x:%x:%x:%x:%x:%x:%x:%x", &w[0], &w[1], &w[2], &w[3],
+        &w[4], &w[5], &w[6], &w[7], &w[8]) != 9) return 0;
+  return 1;
+}
+
+static int
+orc_verif_cpuid (orc_uint32 op, orc_uint32 init_ecx, orc_uint32 *a,
+    orc_uint32 *b, orc_uint32 *c, orc_uint32 *d)
+{
+  unsigned int w[9];
+
+  if (!orc_verif_cpuid_words (w)) return 0;
+  *a = *b = *c = *d = 0;
+  if (op == 0x00000000) {
+    *a = w[1];
+    *c = w[0];
+  } else if (op == 0x00000001 && w[1] >= 1) {
+    *a = 0x000306c3;
+    *c = w[2];
+    *d = w[3];
+  } else if (op == 0x00000007 && w[1] >= 7 && init_ecx == 0) {
+    *b = w[4];
+  } else if (op == 0x80000000) {
+    *a = w[5];
+  } else if (op == 0x80000001 && w[5] >= 0x80000001) {
+    *c = w[6];
+    *d = w[7];
+  }
+  return 1;
+}
+#endif
+
 #if defined(_MSC_VER)
 static void
 get_cpuid (orc_uint32 op, orc_uint32 *a, orc_uint32 *b, orc_uint32 *c, orc_uint32 *d)
@@ -96,6 +142,9 @@ static void
 get_cpuid_ecx (orc_uint32 op, orc_uint32 init_ecx, orc_uint32 *a, orc_uint32 *b,
     orc_uint32 *c, orc_uint32 *d)
 {
+#ifdef ORC_VERIF_HOOKS
+  if (orc_verif_cpuid (op, init_ecx, a, b, c, d)) return;
+#endif
   *a = op;
   *c = init_ecx;
 #if defined(HAVE_I386)
@@ -322,6 +371,19 @@ orc_x86_cpuid_get_branding_string (void)
 // undefined opcode trap.
 // See https://docs.kernel.org/admin-guide/hw-vuln/gather_data_sampling.html
 #define XSAVE_SUPPORT_AVX (XSAVE_SUPPORT_YMM | XSAVE_SUPPORT_XMM)
+#ifdef ORC_VERIF_HOOKS
+/* xgetbv answers from ORC_VERIF_CPUID when it is set (see above) */
+static unsigned long long ORC_TARGET_XSAVE
+orc_verif_xgetbv (unsigned int index)
+{
+  unsigned int w[9];
+
+  if (orc_verif_cpuid_words (w)) return w[8];
+  return _xgetbv (index);
+}
+#undef _xgetbv
+#define _xgetbv(index) orc_verif_xgetbv (index)
+#endif
 #ifdef ORC_NEEDS_ASM_XSAVE
 static orc_bool check_xcr0_ymm()
 {
